@@ -39,7 +39,10 @@ REPLS = ['\\x', '\\xx ', '{\\y}', 'Z', '', '\\textbf{q}', '\\^\\i', 'é', '\\&',
          '\\ensuremath{\\w}']
 PATTERNS = [('ab', 'tpl', '\\\\AB'), ('[abc]+', 'tpl', '{\\g<0>}'), ('[A-Z]{2,}', 'tpl', '{\\g<0>}'),
             ('a|bc', 'fn', None), ('\\.\\.\\.', 'tpl', '\\\\ldots'), ('(a)(b)?', 'tpl', '\\2\\1!'),
-            ('é+', 'fn', None), ('[ab]∞', 'tpl', '\\\\q')]
+            ('é+', 'fn', None), ('[ab]∞', 'tpl', '\\\\q'),
+            # patterns whose match depends on the text *around* the current position
+            ('\\bab\\b', 'tpl', '\\\\W'), ('(?<=a)b', 'tpl', '\\\\Bh'), ('^a', 'tpl', '\\\\S'),
+            ('(?<![a-z])c', 'fn', None), ('b(?=c)', 'tpl', '\\\\Bc'), ('e$', 'tpl', '\\\\E')]
 PREFIXES = [('ab', 2, '\\AB'), ('a', 1, '\\A'), ('∞∞', 2, '\\inftwo'), ('b', 1, 'bb'),
             ('. ', 2, '\\dotsp'), ('é', 1, "\\'e"), ('Ab', 1, '\\Ax'), ('%', 1, '\\%')]
 PROTS = ['none', 'braces', 'braces-all', 'braces-almost-all', 'braces-after-macro', 'callable']
